@@ -202,6 +202,46 @@ NEEDS = {
     "C19-5B": "the dying worker is the last one still running (n_workers = 1)",
     "C20-5A": "log16/log8 saved over an existing LONGER file (no O_TRUNC)",
     "C20-5B": "HyperLogLog file truncated to exactly 2^p bytes, 128 <= 2^p <= 65536 ('raw register dump' fallback)",
+    "C01-6A": "add_ngram, n >= 2, a document in which a byte re-appears exactly n positions later (abca/3, xyxy/2): run-collapsing skips that n-gram",
+    "C01-6B": "one add / update(dict) with multiplicity >= 2^32 (cap removed from add(); the jitted uint32 argument truncates)",
+    "C02-6A": "a key ending in a NUL byte sent through update(list/dict): np.unique over a bytes array strips trailing NULs",
+    "C02-6B": "p <= 15 and a hash whose bits below the leading one are all ones (log2-based leading-zero count rounds up)",
+    "C03-6A": "two NUL-padded aliases resident in different cells with different counts: query() groups cells by padded bytes",
+    "C03-6B": "update() with a list whose length is an exact multiple of 4096 (chunked pre-aggregation adds the whole list again)",
+    "C04-6A": "short key displacing a longer one (stale tail), the same short key with a clean tail in another sketch, then merge",
+    "C04-6B": "depth >= 2, a key owning cells in two rows with different counts, the smaller in the later row (buffered fancy-index max)",
+    "C05-6A": "linear add with multiplicity >= 2^32 (clamp dropped from add())",
+    "C05-6B": "log add of multiplicity >= 2 on a key that shares some but not all cells, shared cell between old minimum and new value",
+    "C06-6A": "same as C05-6B (only cells equal to the minimum are raised)",
+    "C06-6B": "one log add whose (counter + multiplicity) mod 2^8 / 2^16 is <= num_reserved (fast path on a wrapped sum)",
+    "C07-6A": "n at threshold[p], linear counting above the threshold, raw estimate below the first table knot (bias taken as 0)",
+    "C07-6B": "n > 5*2^p while a register is still empty (clamped lookup key written back: query() returns exactly 5*2^p)",
+    "C08-6A": "linear count-min, a key whose total exceeds 2^32-1 split across two workers (uint32+uint32 is uint64 under numba: wraps)",
+    "C08-6B": "a falsy work item (0, empty list) is never queued",
+    "C09-6A": "linear merge of tables with width >= 4096 and width % (width // 2048) != 0: the last columns are not merged",
+    "C09-6B": "log merge fast path decided from the tables' maxima in uint8/uint16 arithmetic",
+    "C10-6A": "log sketch with max_count > 2^53 that is not a double (saved args array promoted to float64 by the appended base)",
+    "C10-6B": "CountMinLog16.load on a file written by CountMinLog8 (shared restore helper uses casting='safe')",
+    "C11-6A": "fasthash64 of a slice view created in jitted code at an offset not a multiple of 8, length >= 16",
+    "C11-6B": "a key containing an 8-byte-aligned all-zero word",
+    "C12-6A": "log add with multiplicity >= 2 that crosses num_reserved (one draw skipped compared with single adds)",
+    "C12-6B": "HyperLogLog.update with a key ending in NUL (np.unique strips it)",
+    "C13-6A": "two NUL-padded aliases resident in different cells (grouped by padded bytes in the vectorised scan)",
+    "C13-6B": "explicit threshold > n_added() on a sketch whose whole history is one key (threshold capped at n_added)",
+    "C14-6A": "narrow sketches / power-of-two widths, row pairs an even distance apart (double hashing from two hashes)",
+    "C14-6B": "depth 5, 6 or 7: rows 4..6 reuse the seeds of rows 0..2",
+    "C15-6A": "heavy hitters with different raw phi (default vs loaded / explicit): merge() compares `args`",
+    "C15-6B": "log16.merge(log8) with identical explicit max_count AND num_reserved (isinstance check + dtype conversion)",
+    "C16-6A": "shared heavy hitters whose key area is not a multiple of 4 bytes: the count table starts 1-3 bytes early",
+    "C16-6B": "attached view on a shape with unaligned bookkeeping counters (np.require silently copies them)",
+    "C17-6A": "some register zero AND raw estimate above 5m (bias no longer subtracted)",
+    "C17-6B": "zero register, linear counting above the threshold, raw estimate below the first knot (negative index wraps)",
+    "C18-6A": "linear self-merge (or merge with a handle on its own block) with a counter >= 2^31 (numpy add-then-repair)",
+    "C18-6B": "log merge whose combined value exceeds max_count by more than base^(num_reserved+1) (cast wraps past the new guard)",
+    "C19-6A": "a raising callback on a worker that already completed an item with a non-zero return (stale n_recs counted again)",
+    "C19-6B": "the dying worker is worker 00 (`if bad_worker:` is falsy for index 0)",
+    "C20-6A": "HyperLogLog file cut at exactly header+1 bytes (np.copyto broadcasts a single register)",
+    "C20-6B": "HeavyHitters file cut 1-8 bytes from the end (unrecognised trailer = 'legacy file', check skipped)",
 }
 
 
@@ -216,11 +256,11 @@ def r2_baseline():
     """Exit codes of the round-2 changes against the PREVIOUS version of the checks."""
     out = {}
     for f in ("r2_before.log", "r2_before_b2.log", "r3_before.log", "r3_before_b2.log",
-              "r4_before.log", "r5_before.log"):
+              "r4_before.log", "r5_before.log", "r6_before.log"):
         p = os.path.join(VERIF_DIR, "seeded", f)
         if os.path.exists(p):
             for line in open(p):
-                m = re.match(r"(C\d+-[2345][AB]) (C\d+) exit=(\d+)", line)
+                m = re.match(r"(C\d+-[23456][AB]) (C\d+) exit=(\d+)", line)
                 if m:
                     out[m.group(1)] = int(m.group(3))
     return out
